@@ -101,4 +101,52 @@ PROPS = {
             "the process-wide panic hook: observed by a counting hook installed by the harness (monitor mon.c10), not modelled",
         ],
     },
+    "C03": {
+        "module": "Cuke.Props.C03",
+        "namespace": "Cuke.C03",
+        "families": [("sched.run", 600, 40000), ("sched.lazy", 400, 30000)],
+        "segments": {"sched.run": [3, 5, 2, 4, 7]},
+        "segment_names": ['B', 'I', 'R', 'FF', 'c03'],
+        "modelled_not_verified": ["futures crate: FuturesUnordered, mpsc channels, join/select (the plumbing is checked by comparing sent and received event sequences)", "the async executor (hand-polled by the harness) and Instant / thread::sleep (clock readings are environment inputs of the model)", "HashMap iteration order at finish_all (model: any order inside the rule group and the feature group)"],
+    },
+    "C04": {
+        "module": "Cuke.Props.C04",
+        "namespace": "Cuke.C04",
+        "families": [("sched.run", 600, 40000), ("sched.lazy", 400, 30000)],
+        "segments": {"sched.run": [5, 0, 2, 8]},
+        "segment_names": ['I', 'Q', 'R', 'c04'],
+        "modelled_not_verified": ["futures crate: FuturesUnordered, mpsc channels, join/select (the plumbing is checked by comparing sent and received event sequences)", "the async executor (hand-polled by the harness) and Instant / thread::sleep (clock readings are environment inputs of the model)", "HashMap iteration order at finish_all (model: any order inside the rule group and the feature group)", "fairness of the environment (every gate is eventually opened, sleeps end, the parser ends) is assumed for termination"],
+    },
+    "C05": {
+        "module": "Cuke.Props.C05",
+        "namespace": "Cuke.C05",
+        "families": [("sched.run", 600, 40000), ("sched.lazy", 400, 30000)],
+        "segments": {"sched.run": [2, 0, 9]},
+        "segment_names": ['R', 'Q', 'c05'],
+        "modelled_not_verified": ["futures crate: FuturesUnordered, mpsc channels, join/select (the plumbing is checked by comparing sent and received event sequences)", "the async executor (hand-polled by the harness) and Instant / thread::sleep (clock readings are environment inputs of the model)", "HashMap iteration order at finish_all (model: any order inside the rule group and the feature group)", "the retry delay is checked against two clock readings bracketing get(); wall-clock sleeping is runtime behaviour"],
+    },
+    "C06": {
+        "module": "Cuke.Props.C06",
+        "namespace": "Cuke.C06",
+        "families": [("sched.run", 600, 40000), ("sched.lazy", 400, 30000)],
+        "segments": {"sched.run": [1, 0, 10]},
+        "segment_names": ['K', 'Q', 'c06'],
+        "modelled_not_verified": ["futures crate: FuturesUnordered, mpsc channels, join/select (the plumbing is checked by comparing sent and received event sequences)", "the async executor (hand-polled by the harness) and Instant / thread::sleep (clock readings are environment inputs of the model)", "HashMap iteration order at finish_all (model: any order inside the rule group and the feature group)"],
+    },
+    "C07": {
+        "module": "Cuke.Props.C07",
+        "namespace": "Cuke.C07",
+        "families": [("sched.run", 600, 40000), ("sched.lazy", 400, 30000)],
+        "segments": {"sched.run": [0, 11]},
+        "segment_names": ['Q', 'c07'],
+        "modelled_not_verified": ["futures crate: FuturesUnordered, mpsc channels, join/select (the plumbing is checked by comparing sent and received event sequences)", "the async executor (hand-polled by the harness) and Instant / thread::sleep (clock readings are environment inputs of the model)", "HashMap iteration order at finish_all (model: any order inside the rule group and the feature group)"],
+    },
+    "C08": {
+        "module": "Cuke.Props.C08",
+        "namespace": "Cuke.C08",
+        "families": [("sched.run", 600, 40000), ("sched.lazy", 400, 30000)],
+        "segments": {"sched.run": [4, 3, 1, 12]},
+        "segment_names": ['FF', 'B', 'K', 'c08'],
+        "modelled_not_verified": ["futures crate: FuturesUnordered, mpsc channels, join/select (the plumbing is checked by comparing sent and received event sequences)", "the async executor (hand-polled by the harness) and Instant / thread::sleep (clock readings are environment inputs of the model)", "HashMap iteration order at finish_all (model: any order inside the rule group and the feature group)"],
+    },
 }
